@@ -1,6 +1,6 @@
 #!/bin/bash
-# usage: tools/confirm_seed.sh Cnn k  -- confirm seeded variant k of property Cnn in its scratch worktree, then keep it
-id="$1"; k="$2"; wt=/tmp/seed/$id; out=/tmp/seed/$id-out
+# usage: [SEEDROOT=/tmp/seed2] tools/confirm_seed.sh Cnn k [dest-index]  -- confirm seeded variant k of property Cnn in its scratch worktree, then keep it as seeded/Cnn-<dest-index>
+id="$1"; k="$2"; dk="${3:-$2}"; root="${SEEDROOT:-/tmp/seed}"; wt=$root/$id; out=$root/$id-out
 cd "$wt" || exit 2
 git checkout -q -- . ; git clean -fdq
 git checkout -q --detach $(git -C /repo rev-parse HEAD) 2>/dev/null
@@ -11,7 +11,7 @@ PYTHONPATH=$wt timeout 600 /venv/bin/python $out/demo$k.py >/dev/null 2>&1; patc
 git checkout -q -- . ; git clean -fdq
 echo "$id-$k: demo clean rc=$clean_rc patched rc=$patched_rc suite rc=$suite_rc ($(tail -1 $out/suite$k.txt))"
 if [ $clean_rc -eq 0 ] && [ $patched_rc -ne 0 ] && [ $suite_rc -eq 0 ]; then
-  d=/verif/seeded/$id-$k; mkdir -p $d
+  d=/verif/seeded/$id-$dk; mkdir -p $d
   cp $out/patch$k.diff $d/patch.diff; cp $out/demo$k.py $d/demo.py
   /venv/bin/python - "$id" "$k" "$out" "$d" <<'PY'
 import json, sys
